@@ -218,15 +218,16 @@ PROPS = {
     "C19": {"harnesses": ["ck"], "lake_targets": ["GcpVerif"],
             "theorems": [("GcpVerif.Proofs.Checksum", "GcpVerif.Checksum." + n) for n in
                          ["consts_tie", "tag_bytes", "marshal_bytes", "marshal_length", "marshal_payload_suffix",
-                          "marshal_error_passthrough", "parse_marshal", "unmarshal_is_inner", "readVarint_varint"]],
+                          "marshal_error_passthrough", "parse_marshal", "unmarshal_is_inner", "readVarint_varint",
+                          "decode_marshal", "declared_2047_corrupts"]],
             "leanchecker": ["GcpVerif.Proofs.Checksum"],
-            "trusted_base": CK_TB, "assumptions": ["the message type does not define field 2047 itself"]},
+            "trusted_base": CK_TB, "assumptions": ["decode_marshal: the message type does not declare field 2047 itself; for a type that does the property fails (theorem declared_2047_corrupts; known finding K8, exhibited by the harness with a dynamic message type)"]},
     "C01": dict(pool_prop([], ["Reach-level theorems assume gRPC's contract (RunOk: Shutdown is reported only for removed connections)"]),
                 theorems=pool_thms(["bound_ready_home", "bound_notready_no_fallback", "unknown_key", "bind_bound_key_noop", "bind_new_key", "unbind_removes", "unbind_other", "lookup_preserves_binding"]) +
                 [("GcpVerif.Proofs.PoolKeys", "GcpVerif.Pool." + n) for n in ["bound_key_in_pool", "binding_stable", "keyed_run", "stable_swap"]] +
                 [("GcpVerif.Proofs.PoolAffinity", "GcpVerif.Pool." + n) for n in ["bound_stays", "bound_pick_home", "bound_call_travels_home", "stable_step_key"]] +
                 [("GcpVerif.Proofs.Ties", "GcpVerif.Ties.bind_reads_subconn_under_lock")]),
-    "C02": dict(pool_prop([], ["placement and increment are one atomic step of the model: for picks on one picker this is the picker mutex held exclusively around the scan (per-run obligation c02_scan_exclusive on the regenerated access table; the pick2 operation of the harness runs two picks concurrently with the balancer lock stalled and the model must explain the outcome by some order of two atomic picks); picks on different pickers may interleave scan and increment"]),
+    "C02": dict(pool_prop([], ["placement and increment are one atomic step of the model, for picks on the same or on different pickers: the balancer-wide pick mutex gb.pickMu is held exclusively around the scan (F31; per-run obligation c02_scan_exclusive on the regenerated access table; the pick2 operation of the harness runs two picks, on one picker or on two, concurrently with the balancer lock stalled and the model must explain the outcome by some order of two atomic picks)"]),
                 theorems=pool_thms(["streams_exact", "streams_nonneg", "streams_zero_when_idle", "run_inv", "leastBusy_spec", "leastBusy_first_on_tie", "below_watermark_places"]) +
                 [("GcpVerif.Proofs.PickAtomic", "GcpVerif.Sync.c02_scan_exclusive"), ("GcpVerif.Proofs.PickAtomic", "GcpVerif.Sync.c02_scan_present")] +
                 [("GcpVerif.Proofs.PoolLoad", "GcpVerif.Pool." + n) for n in ["plain_pick_least_loaded", "published_lists_ready", "getLeastBusy_spec"]]),
@@ -262,10 +263,10 @@ PROPS = {
     "C08": dict(pool_prop([]), theorems=pool_thms(["fallback_sticky", "fallback_new", "bound_ready_home", "lookup_preserves_binding"]) +
                 [("GcpVerif.Proofs.PoolKeys", "GcpVerif.Pool." + n) for n in ["fallback_key_in_pool", "keyed_run"]] +
                 [("GcpVerif.Proofs.PoolFallback", "GcpVerif.Pool." + n) for n in ["fbReady_run", "fallback_pick_ready", "fallback_pick_ready_of", "fbStages", "picker_slot_ready"]]),
-    "C09": dict(pool_prop([], ["fairness: the n*k picks lie within the first 2^32 BIND picks (the uint32 cursor wraps after that; when n does not divide 2^32 the wrap breaks the cycle once: limitation K1, kernel-checked witness rr_unfair_at_wrap, not reachable through the API)", "pool composition unchanged during the window"]),
+    "C09": dict(pool_prop([], ["fairness: the n*k picks lie within the first 2^64 BIND picks of the balancer (64-bit cursor since F32, per-run fact rr_cursor_width; no execution reaches 2^64 picks; the harness fast-forwards the cursor across multiples of 2^32 with the stand-in operation rrjump, which is how the 32-bit wrap - formerly K1 - is exhibited on code that has it)", "pool composition unchanged during the window"]),
                 theorems=pool_thms(["rr_next_slot", "rrSlot_succ"]) + [("GcpVerif.Proofs.PoolRR", "GcpVerif.Pool." + n) for n in
                 ["rr_fair", "rr_fair_nowrap", "window_hits_once", "rrSlot_early", "rr_cursor", "pickRR_assigns", "rr_unfair_at_wrap"]] +
-                [("GcpVerif.Proofs.Ties", "GcpVerif.Ties.rr_cursor_atomic_add")] +
+                [("GcpVerif.Proofs.Ties", "GcpVerif.Ties.rr_cursor_atomic_add"), ("GcpVerif.Proofs.Ties", "GcpVerif.Ties.rr_cursor_width")] +
                 [("GcpVerif.Proofs.PoolRRWait", "GcpVerif.Pool." + n) for n in ["no_ready_waiter", "no_ready_waiter_run", "wake_leaves_unready"]]),
     "C20": dict(pool_prop(["resolver_error_identity"]), theorems=pool_thms(["resolver_error_identity"]) + [("GcpVerif.Proofs.Ties", "GcpVerif.Ties.resolver_error_only_logs"), ("GcpVerif.Proofs.Ties", "GcpVerif.Ties.balancer_callbacks_hold_lock")]
                 + [("GcpVerif.Proofs.PoolAddrs", "GcpVerif.Pool." + n) for n in ["addrs_current", "addrsCur_run", "ccs_connects_all", "ccs_sets_addrs"]]),
